@@ -116,6 +116,9 @@ pub enum TPred {
     True(usize),
     /// arity 2: first value is smaller
     Lt,
+    /// arity n+1: the first value differs from all the others (the table-domain analogue of
+    /// `PGPredicate::IsNotEqual`)
+    NotIn(usize),
 }
 
 impl TPred {
@@ -126,6 +129,7 @@ impl TPred {
             TPred::Const(c) => l.tok(2).tok(c),
             TPred::True(n) => l.tok(3).tok(n),
             TPred::Lt => l.tok(4),
+            TPred::NotIn(n) => l.tok(5).tok(n),
         };
     }
 }
@@ -136,6 +140,7 @@ impl ArityPredicate for TPred {
             TPred::Eq | TPred::Ne | TPred::Lt => 2,
             TPred::Const(_) => 1,
             TPred::True(n) => *n,
+            TPred::NotIn(n) => *n + 1,
         }
     }
 }
@@ -150,7 +155,95 @@ impl<M: BindMap<Key = usize, Value = usize>> Predicate<THost<M>> for TPred {
             (TPred::Lt, [a, b]) => a < b,
             (TPred::Const(c), [a]) => a == c,
             (TPred::True(n), v) if v.len() == *n => true,
+            (TPred::NotIn(n), v) if v.len() == *n + 1 => !v[1..].contains(&v[0]),
             _ => panic!("tpred arity"),
+        }
+    }
+}
+
+// ---------------------------------------------------------------------------------------
+// Constraint-tree strategies of the table domain (each respects the documented contract).
+
+use portmatching::{ConditionedPredicate, Constraint, ConstraintTree, ToConstraintsTree};
+use std::collections::BTreeSet;
+
+thread_local! {
+    /// 0 first-only, 1 transitive mutex, 2 pairwise mutex, 3 powerset (<= 4 constraints)
+    pub static STRATEGY: RefCell<usize> = const { RefCell::new(0) };
+}
+
+pub fn set_strategy(s: usize) {
+    STRATEGY.with(|x| *x.borrow_mut() = s);
+}
+
+pub type TCons = Constraint<usize, TPred>;
+
+/// sort key of a table constraint: (largest argument, predicate, arguments)
+pub fn tcons_key(c: &TCons) -> (usize, TPred, Vec<usize>) {
+    (
+        c.required_bindings().iter().copied().max().unwrap_or(0),
+        *c.predicate(),
+        c.required_bindings().to_vec(),
+    )
+}
+
+/// genuinely mutually exclusive: two `Const` checks of the same key against different constants
+pub fn tcons_mutex(a: &TCons, b: &TCons) -> bool {
+    match (a.predicate(), b.predicate()) {
+        (TPred::Const(x), TPred::Const(y)) => {
+            x != y && a.required_bindings() == b.required_bindings()
+        }
+        _ => false,
+    }
+}
+
+impl ConditionedPredicate<usize> for TPred {
+    fn conditioned(constraint: &TCons, satisfied: &[&TCons]) -> Option<TCons> {
+        match constraint.predicate() {
+            TPred::True(_) => None,
+            TPred::NotIn(_) => {
+                let first = constraint.required_bindings()[0];
+                let mut keys: BTreeSet<usize> =
+                    constraint.required_bindings()[1..].iter().copied().collect();
+                for s in satisfied.iter().filter(|s| {
+                    matches!(s.predicate(), TPred::NotIn(_)) && s.required_bindings()[0] == first
+                }) {
+                    for k in &s.required_bindings()[1..] {
+                        keys.remove(k);
+                    }
+                }
+                if keys.is_empty() {
+                    return None;
+                }
+                let mut args = vec![first];
+                let n = keys.len();
+                args.extend(keys);
+                Some(Constraint::try_new(TPred::NotIn(n), args).unwrap())
+            }
+            _ => Some(constraint.clone()),
+        }
+    }
+}
+
+impl ToConstraintsTree<usize> for TPred {
+    fn to_constraints_tree(constraints: Vec<TCons>) -> ConstraintTree<TCons> {
+        if constraints.is_empty() {
+            return ConstraintTree::new();
+        }
+        let mut sorted: Vec<(TCons, usize)> =
+            constraints.into_iter().enumerate().map(|(i, c)| (c, i)).collect();
+        sorted.sort_by_key(|(c, _)| tcons_key(c));
+        match STRATEGY.with(|s| *s.borrow()) {
+            0 => {
+                sorted.truncate(1);
+                ConstraintTree::with_children(sorted.into_iter().map(|(c, i)| (c, vec![i])))
+            }
+            1 => ConstraintTree::with_transitive_mutex(sorted, tcons_mutex),
+            2 => ConstraintTree::with_pairwise_mutex(sorted, tcons_mutex),
+            _ => {
+                sorted.truncate(4);
+                ConstraintTree::with_powerset(sorted)
+            }
         }
     }
 }
